@@ -5,7 +5,7 @@ import random
 
 import numpy as np
 
-from . import common, sas, c01
+from . import common, sas, c01, c11
 from .common import Finding, fhex, flist, cbool, coq_list
 
 REL_TOL = 1e-11
@@ -182,6 +182,14 @@ def main(run):
                 mix = np.asarray(call_kernel(ck, dict(pars), cutoff=1e-5), "d")
             finally:
                 ck.release()
+            # the same kernel object evaluated again after one-field edits (overall scale, another component's angle
+            # or dispersity, ...): each evaluation must equal the one a kernel of its own gives
+            seq, badseq = c11.reuse_sequence(cmodel, q, pars, 1e-5, rng, cinfo)
+            evals += len(seq); stats["reuse_evaluations"] = stats.get("reuse_evaluations", 0) + len(seq)
+            for i, r, g_, f_ in badseq[:1]:
+                run.add(Finding("C08:reuse:%s" % expr, "%s: evaluation %d on a reused kernel (after edits %s) returns %s, a fresh kernel %s" % (
+                    expr, i, [x.get("edit") for x in seq[1:i + 1]], np.asarray(g_).tolist() if not isinstance(g_, str) else g_,
+                    np.asarray(f_).tolist() if not isinstance(f_, str) else f_), dict(expr=expr, dim=dim, sequence=seq[:i + 1])))
             parts_out, pscales = [], []
             for (sn, m), pi, pm in zip(maps, part_infos, pmodels):
                 pk = pm.make_kernel(q)
